@@ -35,6 +35,7 @@ def load_program(repo='/repo', mir_text=None, solver_timeout_ms=10000):
     bodies = parse.parse_mir(mir_text)
     L = layout.Layout(repo)
     synprint.LAYOUT = L
+    from . import front  # registers the ParseBuffer models
     prog = sexec.Program(bodies, L, models.Models(), repo, solver_timeout_ms)
     prog.ast = ast.Ast(L)
     prog.mir_dump_s = dt
